@@ -135,7 +135,9 @@ pub fn random_value(rng: &mut crate::rng::Rng, depth: usize) -> V {
         6 => V::Str(rng.pstr(&["nan", "NaN", "inf", "-inf", "Infinity", "infinity", "-Infinity", "+inf", "1_0", "0x10", "١", "1e400", "-1e400", "1e-400", "00", "-0.0", ".", "-", "+", "e1"]).to_string()),
         7 => {
             let n = rng.below(4);
-            let alphabet = ["a", "b", "A", "é", " ", "z", "0", "ß", "日"];
+            // (the last five: characters above and below the surrogate range, which UTF-16 order and
+            // code-point order sort differently)
+            let alphabet = ["a", "b", "A", "é", " ", "z", "0", "ß", "日", "ﬁ", "𝄞", "\u{ffff}", "\u{e000}", "😀"];
             V::Str((0..n).map(|_| rng.pstr(&alphabet)).collect())
         }
         _ => {
